@@ -20,6 +20,8 @@
 use arrow::array::types::{IntervalDayTime, IntervalMonthDayNano};
 use arrow::array::*;
 #[cfg(not(feature = "force_hash_collisions"))]
+use arrow::buffer::NullBuffer;
+#[cfg(not(feature = "force_hash_collisions"))]
 use arrow::compute::take;
 use arrow::datatypes::*;
 #[cfg(not(feature = "force_hash_collisions"))]
@@ -532,15 +534,20 @@ fn hash_dictionary_scatter<
     const MULTI_COL: bool,
 >(
     array: &DictionaryArray<K>,
+    value_nulls: Option<&NullBuffer>,
     dict_hashes: &[u64],
     hashes_buffer: &mut [u64],
 ) {
-    let dict_values = array.values();
+    // `value_nulls` is the *logical* null mask of the dictionary values
+    let is_valid_value = |idx: usize| match value_nulls {
+        Some(nulls) if HAS_NULL_VALUES => nulls.is_valid(idx),
+        _ => true,
+    };
     if HAS_NULL_KEYS {
         for (hash, key) in hashes_buffer.iter_mut().zip(array.keys().iter()) {
             if let Some(key) = key {
                 let idx = key.as_usize();
-                if !HAS_NULL_VALUES || dict_values.is_valid(idx) {
+                if is_valid_value(idx) {
                     if MULTI_COL {
                         *hash = combine_hashes(dict_hashes[idx], *hash);
                     } else {
@@ -552,7 +559,7 @@ fn hash_dictionary_scatter<
     } else {
         for (hash, key) in hashes_buffer.iter_mut().zip(array.keys().values()) {
             let idx = key.as_usize();
-            if !HAS_NULL_VALUES || dict_values.is_valid(idx) {
+            if is_valid_value(idx) {
                 if MULTI_COL {
                     *hash = combine_hashes(dict_hashes[idx], *hash);
                 } else {
@@ -571,46 +578,59 @@ fn dispatch_dictionary_scatter<K: ArrowDictionaryKeyType>(
     multi_col: bool,
 ) {
     let has_null_keys = array.keys().null_count() != 0;
-    let has_null_values = array.values().null_count() != 0;
+    // Use the logical nulls of the values: values that are themselves
+    // dictionary / run-end encoded have no physical null buffer, but can
+    // still contain NULLs, and rows referencing those must be skipped too
+    let value_nulls = array.values().logical_nulls();
+    let value_nulls = value_nulls.as_ref().filter(|n| n.null_count() != 0);
+    let has_null_values = value_nulls.is_some();
 
     match (has_null_keys, has_null_values, multi_col) {
         (false, false, false) => hash_dictionary_scatter::<K, false, false, false>(
             array,
+            value_nulls,
             dict_hashes,
             hashes_buffer,
         ),
         (false, false, true) => hash_dictionary_scatter::<K, false, false, true>(
             array,
+            value_nulls,
             dict_hashes,
             hashes_buffer,
         ),
         (false, true, false) => hash_dictionary_scatter::<K, false, true, false>(
             array,
+            value_nulls,
             dict_hashes,
             hashes_buffer,
         ),
         (false, true, true) => hash_dictionary_scatter::<K, false, true, true>(
             array,
+            value_nulls,
             dict_hashes,
             hashes_buffer,
         ),
         (true, false, false) => hash_dictionary_scatter::<K, true, false, false>(
             array,
+            value_nulls,
             dict_hashes,
             hashes_buffer,
         ),
         (true, false, true) => hash_dictionary_scatter::<K, true, false, true>(
             array,
+            value_nulls,
             dict_hashes,
             hashes_buffer,
         ),
         (true, true, false) => hash_dictionary_scatter::<K, true, true, false>(
             array,
+            value_nulls,
             dict_hashes,
             hashes_buffer,
         ),
         (true, true, true) => hash_dictionary_scatter::<K, true, true, true>(
             array,
+            value_nulls,
             dict_hashes,
             hashes_buffer,
         ),
@@ -1020,6 +1040,15 @@ fn hash_run_array_inner<
     child_hashing
         .create_hashes(std::slice::from_ref(&sliced_values), &mut values_hashes)?;
 
+    // Use the logical nulls of the values: values that are themselves
+    // dictionary / run-end encoded have no physical null buffer, but can
+    // still contain NULLs, and those runs must be skipped too
+    let value_nulls = if HAS_NULL_VALUES {
+        sliced_values.logical_nulls()
+    } else {
+        None
+    };
+
     let mut start_in_slice = 0;
     for (adjusted_physical_index, &absolute_run_end) in run_ends_values
         [start_physical_index..end_physical_index]
@@ -1029,7 +1058,10 @@ fn hash_run_array_inner<
         let absolute_run_end = absolute_run_end.as_usize();
         let end_in_slice = (absolute_run_end - array_offset).min(array_len);
 
-        if HAS_NULL_VALUES && sliced_values.is_null(adjusted_physical_index) {
+        if value_nulls
+            .as_ref()
+            .is_some_and(|nulls| nulls.is_null(adjusted_physical_index))
+        {
             start_in_slice = end_in_slice;
             continue;
         }
@@ -1058,7 +1090,7 @@ fn hash_run_array<R: RunEndIndexType>(
     hashes_buffer: &mut [u64],
     rehash: bool,
 ) -> Result<()> {
-    let has_null_values = array.values().null_count() != 0;
+    let has_null_values = array.values().logical_null_count() != 0;
 
     match (has_null_values, rehash) {
         (false, false) => hash_run_array_inner::<R, _, false, false>(
